@@ -67,10 +67,18 @@ pub open spec fn spec_analyze(m: Method, v: Version, eff: Seq<Hdr>, wanted: Body
 pub uninterp spec fn key_bytes<K>(k: K) -> Option<Seq<u8>>;
 pub uninterp spec fn val_bytes<V>(v: V) -> Option<Seq<u8>>;
 #[verifier::external_body]
-pub broadcast proof fn axiom_key_val_bytes(n: HeaderName, v: HeaderValue, s: &'static str)
-    ensures #[trigger] key_bytes::<HeaderName>(n) == Some(n.view()), #[trigger] val_bytes::<HeaderValue>(v) == Some(v.view()),
-        crate::http::valid_name(lower(str_bytes(s))) ==> #[trigger] key_bytes::<&'static str>(s) == Some(lower(str_bytes(s)))
+pub broadcast proof fn axiom_key_bytes_name(n: HeaderName)
+    ensures #[trigger] key_bytes::<HeaderName>(n) == Some(n.view())
 {}
+#[verifier::external_body]
+pub broadcast proof fn axiom_val_bytes_value(v: HeaderValue)
+    ensures #[trigger] val_bytes::<HeaderValue>(v) == Some(v.view())
+{}
+#[verifier::external_body]
+pub broadcast proof fn axiom_key_bytes_str(s: &'static str)
+    ensures crate::http::valid_name(lower(str_bytes(s))) ==> #[trigger] key_bytes::<&'static str>(s) == Some(lower(str_bytes(s)))
+{}
+pub broadcast group axiom_key_val_bytes { axiom_key_bytes_name, axiom_val_bytes_value, axiom_key_bytes_str }
 ''')
 
 ITEM('struct AmendedRequest')
